@@ -251,7 +251,8 @@ def led__arrow_operator(self: XPathToken, left: XPathToken) -> XPathToken:
         self.parser.advance()  # Skip static evaluation of function arguments
     else:
         next_token.expected('(name)', ':', 'Q{', '(')
-        self.parser.parse_arguments = False
+        # a parenthesized specifier is an ordinary expression: only a function name skips its arguments
+        self.parser.parse_arguments = next_token.symbol == '('
         try:
             self[:] = left, self.parser.expression(80)
         finally:
